@@ -55,6 +55,12 @@ def replace(root, path, new):
 
 def candidates(g):
     """Yields smaller variants of grammar json g (largest reductions first)."""
+    if g.get("inherit"):
+        # `struct Ri : Rj {}` pairs must keep identical bodies: first try the grammar with independent copies, and do not edit otherwise
+        ng = copy.deepcopy(g)
+        ng["inherit"] = {}
+        yield ng
+        return
     out = []
     for ri, rule in enumerate(g["rules"]):
         for path in paths(rule):
